@@ -172,7 +172,7 @@ impl QVisitor for NewQ<'_> {
         Box::new(w.query::<Q>())
     }
 }
-struct AcquireQ<'a>(&'a mut Box<dyn Any>);
+struct AcquireQ<'a>(&'a mut Box<dyn Any>, u64);
 impl QVisitor for AcquireQ<'_> {
     type Out = ();
     fn visit<Q: QDesc>(self)
@@ -180,7 +180,12 @@ impl QVisitor for AcquireQ<'_> {
         for<'a> Q::Item<'a>: EncItem,
     {
         let qb = self.0.downcast_mut::<QueryBorrow<'static, Q>>().expect("slot type");
-        let _ = qb.iter();
+        // every method that starts using a QueryBorrow must take the same dynamic borrows
+        match self.1 {
+            0 => drop(qb.iter()),
+            1 => drop(qb.iter_batched(2)),
+            _ => drop(qb.view()),
+        }
     }
 }
 struct NewView<'a>(&'a World);
@@ -431,7 +436,7 @@ impl Engine {
                 let w = self.guards.slots[i].world;
                 let ghost = self.guards.slots[i].ghost.clone();
                 let mut obj = self.guards.slots[i].obj.take().unwrap();
-                let res = catch_unwind(AssertUnwindSafe(|| crate::gen_queries::dispatch_query(qidx, AcquireQ(&mut obj))));
+                let res = catch_unwind(AssertUnwindSafe(|| crate::gen_queries::dispatch_query(qidx, AcquireQ(&mut obj, (i % 3) as u64))));
                 self.guards.slots[i].obj = Some(obj);
                 self.judge(w, &ghost, res.is_ok(), "query().iter()", out);
                 if res.is_ok() {
